@@ -5,6 +5,8 @@ import ZvbiModel.Demux.LemmasWrap
 -/
 namespace Zvbi.Demux
 
+variable {cfg : SrcCfg}
+
 /-- invariant of a PES demux context between calls -/
 def PInv (s : St) : Prop :=
   s.pw.leftover ≤ s.pw.wb.length ∧ 48 ≤ s.pw.lookahead ∧ s.pw.lookahead ≤ 65495
@@ -15,9 +17,9 @@ theorem PInv_init : PInv St.init := by
 theorem pesLoop_refines : ∀ (fuel : Nat) (s : St) (buf hist : Bytes) (si : Nat),
     PInv s → si ≤ buf.length → s.pending <:+ hist ++ buf.take si →
     (s.pending ++ buf.drop si).length - s.pw.skip + 2 ≤ fuel →
-    ∃ s' outs, pesLoop fuel true false s buf si buf.length = (s', outs, buf.length, .needMore)
+    ∃ s' outs, pesLoop fuel true cfg s buf si buf.length = (s', outs, buf.length, .needMore)
       ∧ PInv s'
-      ∧ arun s.core (s.pending ++ buf.drop si)
+      ∧ arun cfg s.core (s.pending ++ buf.drop si)
           = { core := s'.core, pend := s'.pending, frames := outs, stop := none } := by
   intro fuel
   induction fuel with
@@ -67,35 +69,35 @@ theorem pesLoop_refines : ∀ (fuel : Nat) (s : St) (buf hist : Bytes) (si : Nat
       refine ⟨s2, outs1 ++ outs2, rfl, hinv2, ?_⟩
       rw [hpend1] at har2
       have hskL := hw.skip_le
-      have e0 := arun_skip (s.pending ++ buf.drop si) s.pw.skip 0 s.pw.lookahead s.fs hskL
+      have e0 := arun_skip (cfg := cfg) (s.pending ++ buf.drop si) s.pw.skip 0 s.pw.lookahead s.fs hskL
       simp only [Nat.add_zero] at e0
-      have e1 : arun s.core (s.pending ++ buf.drop si)
-          = arun { skip := 0, lookahead := w'.lookahead, fs := s.fs } (w'.pend ++ buf.drop si') := by
+      have e1 : arun cfg s.core (s.pending ++ buf.drop si)
+          = arun cfg { skip := 0, lookahead := w'.lookahead, fs := s.fs } (w'.pend ++ buf.drop si') := by
         rw [hL1, hw.la]; exact e0
       rw [e1, har]
-      have e2 : arun { skip := sk', lookahead := la', fs := fs' } (w'.pend ++ buf.drop si')
+      have e2 : arun cfg { skip := sk', lookahead := la', fs := fs' } (w'.pend ++ buf.drop si')
           = { core := s2.core, pend := s2.pending, frames := outs2, stop := none } := har2
       rw [e2]
       rfl
 
 /-- the bytes a context still holds are not enough for another step of the stream machine -/
-def Stuck (s : St) : Prop :=
-  arun s.core s.pending = { core := s.core, pend := s.pending, frames := [], stop := none }
+def Stuck (cfg : SrcCfg) (s : St) : Prop :=
+  arun cfg s.core s.pending = { core := s.core, pend := s.pending, frames := [], stop := none }
 
 /-- invariant of every reachable PES demux context -/
-def Inv (s : St) : Prop := PInv s ∧ Stuck s
+def Inv (cfg : SrcCfg) (s : St) : Prop := PInv s ∧ Stuck cfg s
 
-theorem Inv_init : Inv St.init := ⟨PInv_init, by simp [Stuck, St.pending, St.init, Wrap.pend, arun]⟩
+theorem Inv_init : Inv cfg St.init := ⟨PInv_init, by simp [Stuck, St.pending, St.init, Wrap.pend, arun]⟩
 
-theorem arun_idem (c : Core) (L : Bytes) (h : (arun c L).stop = none) :
-    arun (arun c L).core (arun c L).pend
-      = { core := (arun c L).core, pend := (arun c L).pend, frames := [], stop := none } := by
-  have h1 := arun_append L c [] h
+theorem arun_idem (c : Core) (L : Bytes) (h : (arun cfg c L).stop = none) :
+    arun cfg (arun cfg c L).core (arun cfg c L).pend
+      = { core := (arun cfg c L).core, pend := (arun cfg c L).pend, frames := [], stop := none } := by
+  have h1 := arun_append (cfg := cfg) L c [] h
   rw [List.append_nil] at h1
   unfold ARes.andThen at h1
   simp only [List.append_nil] at h1
-  generalize arun c L = r at h h1
-  generalize arun r.core r.pend = r2 at h1
+  generalize arun cfg c L = r at h h1
+  generalize arun cfg r.core r.pend = r2 at h1
   obtain ⟨c1, p1, f1, s1⟩ := r
   obtain ⟨c2, p2, f2, s2⟩ := r2
   simp only [ARes.mk.injEq] at h1 h
@@ -106,34 +108,34 @@ theorem arun_idem (c : Core) (L : Bytes) (h : (arun c L).stop = none) :
 
 /-- one `vbi_dvb_demux_feed` call: no fault, invariant kept, and the call is the stream machine run
 on `pending ++ buffer` -/
-theorem pesFeed_refines (s : St) (buf : Bytes) (h : Inv s) :
-    (pesFeed s buf).err = none ∧ Inv (pesFeed s buf).st ∧
-    arun s.core (s.pending ++ buf)
-      = { core := (pesFeed s buf).st.core, pend := (pesFeed s buf).st.pending,
-          frames := (pesFeed s buf).frames, stop := none } := by
+theorem pesFeed_refines (s : St) (buf : Bytes) (h : Inv cfg s) :
+    (pesFeed cfg s buf).err = none ∧ Inv cfg (pesFeed cfg s buf).st ∧
+    arun cfg s.core (s.pending ++ buf)
+      = { core := (pesFeed cfg s buf).st.core, pend := (pesFeed cfg s buf).st.pending,
+          frames := (pesFeed cfg s buf).frames, stop := none } := by
   have hpl : s.pending.length = s.pw.leftover := s.pw.pend_length h.1.1
-  obtain ⟨s', outs, hloop, hinv, har⟩ := pesLoop_refines (pesFuel s buf) s buf s.pending 0 h.1 (Nat.zero_le _)
+  obtain ⟨s', outs, hloop, hinv, har⟩ := pesLoop_refines (cfg := cfg) (pesFuel s buf) s buf s.pending 0 h.1 (Nat.zero_le _)
     (by simp) (by simp only [pesFuel, List.drop_zero, List.length_append, hpl]; omega)
   rw [List.drop_zero] at har
-  have hf : pesFeed s buf = { st := s', frames := outs } := by
+  have hf : pesFeed cfg s buf = { st := s', frames := outs } := by
     unfold pesFeed; rw [hloop]
   rw [hf]
   refine ⟨rfl, ⟨hinv, ?_⟩, har⟩
-  have hs : (arun s.core (s.pending ++ buf)).stop = none := by rw [har]
-  have := arun_idem s.core (s.pending ++ buf) hs
+  have hs : (arun cfg s.core (s.pending ++ buf)).stop = none := by rw [har]
+  have := arun_idem (cfg := cfg) s.core (s.pending ++ buf) hs
   rw [har] at this
   exact this
 
 /-- **feed_split_invariant** at the level of states: feeding `a` then `b` is feeding `a ++ b` -/
-theorem pesFeed_split (s : St) (a b : Bytes) (h : Inv s) :
-    (pesFeed s (a ++ b)).frames = (pesFeed s a).frames ++ (pesFeed (pesFeed s a).st b).frames ∧
-    (pesFeed s (a ++ b)).st.core = (pesFeed (pesFeed s a).st b).st.core ∧
-    (pesFeed s (a ++ b)).st.pending = (pesFeed (pesFeed s a).st b).st.pending := by
-  obtain ⟨_, hi1, h1⟩ := pesFeed_refines s a h
-  obtain ⟨_, _, h2⟩ := pesFeed_refines (pesFeed s a).st b hi1
-  obtain ⟨_, _, h3⟩ := pesFeed_refines s (a ++ b) h
-  have hs : (arun s.core (s.pending ++ a)).stop = none := by rw [h1]
-  have happ := arun_append (s.pending ++ a) s.core b hs
+theorem pesFeed_split (s : St) (a b : Bytes) (h : Inv cfg s) :
+    (pesFeed cfg s (a ++ b)).frames = (pesFeed cfg s a).frames ++ (pesFeed cfg (pesFeed cfg s a).st b).frames ∧
+    (pesFeed cfg s (a ++ b)).st.core = (pesFeed cfg (pesFeed cfg s a).st b).st.core ∧
+    (pesFeed cfg s (a ++ b)).st.pending = (pesFeed cfg (pesFeed cfg s a).st b).st.pending := by
+  obtain ⟨_, hi1, h1⟩ := pesFeed_refines (cfg := cfg) s a h
+  obtain ⟨_, _, h2⟩ := pesFeed_refines (cfg := cfg) (pesFeed cfg s a).st b hi1
+  obtain ⟨_, _, h3⟩ := pesFeed_refines (cfg := cfg) s (a ++ b) h
+  have hs : (arun cfg s.core (s.pending ++ a)).stop = none := by rw [h1]
+  have happ := arun_append (cfg := cfg) (s.pending ++ a) s.core b hs
   rw [List.append_assoc, h3, h1] at happ
   unfold ARes.andThen at happ
   simp only [] at happ
@@ -142,19 +144,19 @@ theorem pesFeed_split (s : St) (a b : Bytes) (h : Inv s) :
   exact ⟨happ.2.2.1, happ.1, happ.2.1⟩
 
 /-- successive feed calls -/
-def pesFeeds (s : St) : List Bytes → Res
+def pesFeeds (cfg : SrcCfg) (s : St) : List Bytes → Res
   | [] => { st := s }
   | b :: bs =>
-    let r := pesFeed s b
+    let r := pesFeed cfg s b
     match r.err with
     | some e => { r with err := some e }
-    | none => let r2 := pesFeeds r.st bs; { r2 with frames := r.frames ++ r2.frames }
+    | none => let r2 := pesFeeds cfg r.st bs; { r2 with frames := r.frames ++ r2.frames }
 
-theorem pesFeeds_refines : ∀ (chunks : List Bytes) (s : St), Inv s →
-    (pesFeeds s chunks).err = none ∧ Inv (pesFeeds s chunks).st ∧
-    arun s.core (s.pending ++ chunks.flatten)
-      = { core := (pesFeeds s chunks).st.core, pend := (pesFeeds s chunks).st.pending,
-          frames := (pesFeeds s chunks).frames, stop := none } := by
+theorem pesFeeds_refines : ∀ (chunks : List Bytes) (s : St), Inv cfg s →
+    (pesFeeds cfg s chunks).err = none ∧ Inv cfg (pesFeeds cfg s chunks).st ∧
+    arun cfg s.core (s.pending ++ chunks.flatten)
+      = { core := (pesFeeds cfg s chunks).st.core, pend := (pesFeeds cfg s chunks).st.pending,
+          frames := (pesFeeds cfg s chunks).frames, stop := none } := by
   intro chunks
   induction chunks with
   | nil =>
@@ -164,10 +166,10 @@ theorem pesFeeds_refines : ∀ (chunks : List Bytes) (s : St), Inv s →
     exact h.2
   | cons b bs ih =>
     intro s h
-    obtain ⟨he, hi1, h1⟩ := pesFeed_refines s b h
-    obtain ⟨he2, hi2, h2⟩ := ih (pesFeed s b).st hi1
-    have hs : (arun s.core (s.pending ++ b)).stop = none := by rw [h1]
-    have happ := arun_append (s.pending ++ b) s.core bs.flatten hs
+    obtain ⟨he, hi1, h1⟩ := pesFeed_refines (cfg := cfg) s b h
+    obtain ⟨he2, hi2, h2⟩ := ih (pesFeed cfg s b).st hi1
+    have hs : (arun cfg s.core (s.pending ++ b)).stop = none := by rw [h1]
+    have happ := arun_append (cfg := cfg) (s.pending ++ b) s.core bs.flatten hs
     rw [List.append_assoc, h1] at happ
     unfold ARes.andThen at happ
     simp only [] at happ
